@@ -597,29 +597,34 @@ class RedlineEngine:
             logger.warning("Skipping heuristic edit: target_text is empty.")
             return False
 
-        start_idx, match_len = self.mapper.find_match_index(edit.target_text)
-
-        # A raw-view match that touches already deleted text is not what the reader sees:
-        # fall through to the Clean View, which only contains visible text.
-        if start_idx != -1 and self._range_touches_deletion(self.mapper, start_idx, start_idx + match_len):
-            start_idx, match_len = -1, 0
-
-        # FALLBACK: If Raw View match failed, try matching against Clean View
+        # Literal matches take precedence over fuzzy ones: raw view, then accepted view, and only if
+        # neither contains the target literally the fuzzy matchers are tried in the same order.
+        # A raw-view match that touches already deleted text is not what the reader sees and is
+        # passed over.
         use_clean_map = False
-        if start_idx == -1:
+        start_idx, match_len = -1, 0
+        for exact_only in (True, False):
+            start_idx, match_len = self.mapper.find_match_index(edit.target_text, exact_only=exact_only)
+            if start_idx != -1 and self._range_touches_deletion(self.mapper, start_idx, start_idx + match_len):
+                start_idx, match_len = -1, 0
+            if start_idx != -1:
+                break
+
             if not self.clean_mapper:
                 self.clean_mapper = DocumentMapper(self.doc, clean_view=True)
-            else:
+            elif exact_only:
                 # The document may have been edited since the clean map was built
                 self.clean_mapper._build_map()
 
-            start_idx, match_len = self.clean_mapper.find_match_index(edit.target_text)
+            start_idx, match_len = self.clean_mapper.find_match_index(edit.target_text, exact_only=exact_only)
             if start_idx != -1:
                 logger.info("Matched edit against Clean View.")
                 use_clean_map = True
-            else:
-                logger.warning(f"Skipping edit: Target '{edit.target_text[:20]}...' not found (Raw or Clean).")
-                return False
+                break
+
+        if start_idx == -1:
+            logger.warning(f"Skipping edit: Target '{edit.target_text[:20]}...' not found (Raw or Clean).")
+            return False
 
         if use_clean_map and self.clean_mapper:
             active_mapper = self.clean_mapper
